@@ -311,3 +311,32 @@ CLAIM.update({
         ref="DESIGN.md section 4, C18", technique="model-based property testing (rapid, generated operation sequences) + bounded-exhaustive consumer sequences; reference stream-cursor model",
         note="found and fixed: raw Read bypassed the buffered reader (fix: 39be39c)"),
 })
+
+PLAN["C19"] = dict(
+    quick=[dict(test="TestC19Rapid", checks=1500), *shards("TestC19Grammar", 6)],
+    thorough=[*shards("TestC19Rapid", 12, checks=8000), *shards("TestC19Grammar", 6)],
+)
+
+LEVEL.update({"C19": "exploration"})
+RULE.update({
+    "C19": "case = address template x operation {Bind(+DoListen), Listen, NewConnection} x pre-state {fresh service, after a failed Bind, bound but "
+           "not served (filesystem socket), after a full bind/serve/shutdown cycle, stale socket file at the path}. Templates: protocol in {unix, tcp, "
+           "UNIX, udp, http, '', padded, ...} x unix path forms (empty, @name, @, relative, ./relative, absolute, missing directory, >108 bytes, "
+           "space, colon, unicode, a directory, '/') or tcp host forms (127.0.0.1:port, port 0, localhost, [::1], :port, no port, bad octet, bad port, "
+           "unresolvable, service name) x ';' tails (none, ';', ';mode=0600', ';a;b', ';x:y', a path); strings without any ':'; random soups over "
+           "{: ; @ / . u n i x t c p 0 1 space e-acute NUL}. All paths live in a per-case temp directory that is also the working directory. "
+           "Plus the full product 5 protocols x all path/host forms x 5 tails x 3 operations. Oracle: address model - never a panic or hang; must-refuse "
+           "strings (no ':', protocol not unix/tcp, empty unix path) give an error, install no listener and revive no old address; if a bind of a "
+           "valid string succeeds, NewConnection with the SAME string reaches that service (unique vendor token), the filesystem path is a socket "
+           "(replacing a stale one), '@' creates no file, and the path is gone after Shutdown + return; afterwards the object always binds and "
+           "serves a good address again. Non-trivial = a string with a ';' tail or '@', a refused string that has a ':', or a stale socket present.",
+})
+ASSUME.update({"C19": ["over-long paths, unresolvable hosts, port 0, empty TCP host, '[::1]', 'localhost', '@' alone are don't-care for success, but must not crash",
+                        "TCP ports are taken from a just-closed listener; a bind failure of a valid string is never a violation"]})
+CLAIM.update({
+    "C19": dict(
+        text="Property test over an address grammar and random strings x three operations x five pre-states with an address model as oracle "
+             "(refuse / valid-if-bound-then-reachable / don't-care), real sockets in a sandbox directory; the finite grammar product is enumerated completely.",
+        ref="DESIGN.md section 4, C19", technique="property-based testing (rapid, grammar-based generator) + bounded-exhaustive grammar product; reference address model",
+        note="found and fixed: panic on empty unix path (17767f1), parse error ignored (dd7c2b6)"),
+})
